@@ -141,6 +141,8 @@ def run(rep, tier, seed, model_ok=True, effort=1):
             from_cli, cmsg, tmsg = False, "bump to {new_version}", "see ${CHANGELOG_URL}"
         if i == 4:
             from_cli, cmsg, tmsg = True, "bump to NEW", "{0}"
+        if i == 5:
+            from_cli, cmsg, tmsg = False, "release {new_version}", "tag {new_version}"
         forced_cfg = i < 3
         if forced_cfg:
             from_cli = False
@@ -159,6 +161,9 @@ def run(rep, tier, seed, model_ok=True, effort=1):
                 cmsg += r.choice([" 100%", " %% done", " %(lines)s", " [%d files]"])
                 tmsg += r.choice(["", " %", " 50%%"])
                 cfg_c, cfg_t = cmsg, tmsg
+        if i == 5:
+            # a file whose NAME starts and ends with a quote character, named in a setup.cfg: the name reaches the VCS as it is
+            fmt, fname = "setup.cfg", '"VERSION"'
         rep.count("update-config=%s" % fmt)
         prj = project.TempProject("MAJOR.MINOR.PATCH", "1.2.3", files={fname: ["ver = {version}"]}, commit=True, tag=True, push=False, vcs=vcs, fmt=fmt,
                                   vcs_cfg=dict(tags=[], status="", remote=None), commit_message=cfg_c, tag_message=cfg_t)
